@@ -235,6 +235,15 @@ def pred_c01(prog, case, outs, tables):
                     want = None
                 if want is not None and want[0] != "ok":
                     bad.append((j, "the key does not designate a leaf (%s at depth %d by the documented walk), yet the write changed %r" % (KIND.get(want[1], "?"), want[2], changed)))
+            if changed and op.get("_steps") is not None:
+                # the key was written for a node: if that node is absent at run time (Option::None / another enum, Result
+                # or Bound variant on the path) the key designates nothing that exists, and nothing may change
+                try:
+                    ra = SP.ref_absent(prog.t, prog.states[case["state"]], [tuple(x) for x in op["_steps"]])
+                except Exception:
+                    ra = None
+                if ra is not None and ra[0] == "absent":
+                    bad.append((j, "node %r is absent at run time (noticed after %d keys), yet the write changed %r" % ([s_[0] for s_ in op["_steps"]], ra[1], changed)))
             if accepted and op.get("_steps") is not None and op.get("_tid") and j in tables:
                 ent = [e for e in tables[j] if e[0] == op["_tid"]]
                 if ent and ent[0][1] == 1:
@@ -582,6 +591,10 @@ def pred_c05(prog, case, outs, tables):
                 bad.append((j, "%s get then set by the same key changed the tree (set returned %r)" % ("postcard" if op.get("pc") else "json", r2)))
             elif r2 == [0] and not fin:
                 bad.append((j, "%s set did not consume exactly the bytes get produced" % ("postcard" if op.get("pc") else "json")))
+            elif r2 and r2[0] == 1 and len(r2) > 1 and r2[1] in (1, 2, 3):
+                # the key resolved to a leaf for the read; the same key cannot be too short / not found / too long for the write
+                bad.append((j, "%s get by this key succeeded, set of the produced bytes by the same key fails with %s: the bytes cannot be written back"
+                            % ("postcard" if op.get("pc") else "json", KIND.get(r2[1], "?"))))
     # writing a value and reading it back by the same key returns that value
     ops = case["ops"]
     for j in range(len(ops) - 1):
